@@ -170,8 +170,15 @@ def value_rec(v: _core.Value, reg: Registry, with_bytes=False):
         v.is_graph_input(),
         v.is_graph_output(),
         v.is_initializer(),
-        reg.token(v.graph),
+        _graph_token(v, reg),
     )
+
+
+def _graph_token(v, reg):
+    try:
+        return reg.token(v.graph)
+    except AttributeError:
+        return "<producer is a half-constructed node>"
 
 
 VALUE_FIELDS = ("kind", "name", "type", "shape", "const_value", "doc_string", "metadata_props", "meta",
@@ -249,9 +256,21 @@ def closure(roots, reg: Registry):
         seen[id(o)] = o
         order.append(o)
         nxt = []
+        if isinstance(o, _core.Node) and not hasattr(o, "_graph"):
+            # a node whose constructor raised half-way but which an IR object still names (as its producer)
+            zombies = getattr(reg, "zombies", None)
+            if zombies is None:
+                zombies = reg.zombies = {}
+            zombies[id(o)] = o
+            seen.pop(id(o))
+            order.pop()
+            continue
         if isinstance(o, _core.Value):
             nxt.append(o.producer())
-            nxt.append(o.graph)
+            try:
+                nxt.append(o.graph)
+            except AttributeError:
+                pass  # the producer is a half-constructed node (recorded when it is visited)
             nxt.extend(u.node for u in o.uses())
         elif isinstance(o, _core.Node):
             nxt.extend(o.inputs)
